@@ -388,7 +388,7 @@ FINGERPRINTS = {"d8_lhs_subscript_or_loop_bound_only": fp_d8}
 
 # ---- input generation --------------------------------------------------------------
 
-BASE_CTX = {"x": 5, "j": 1, "n": 3, "<p>k": 2, "<state>y": 4, "<t>": 0.0, "<dt>": 0.5,
+BASE_CTX = {"<func>gv": 2, "<builtin>bv": 1, "x": 5, "j": 1, "n": 3, "<p>k": 2, "<state>y": 4, "<t>": 0.0, "<dt>": 0.5,
             "c": True, "d": False, "a": [0.0, 1.0, 2.0, 3.0], "<state>v": [4.0, 5.0, 6.0, 7.0]}
 
 
@@ -455,6 +455,11 @@ def exhaustive_statements():
         yield {"t": "Call", "assignees": ["x"], "f": "<func>f", "args": [{"str": "j + <p>k"}], "kw": {}, "cond": c}
         yield {"t": "Call", "assignees": ["x"], "f": "<func>f", "args": [], "kw": {"x": {"str": "n"}}, "cond": c}
         yield {"t": "Yield", "expr": {"str": "<state>y"}, "time": "<t>", "cond": c}
+    # a name with a <func> / <builtin> tag used as a VALUE (the interpreter looks in the variable context first)
+    for c in CONDS[:3]:
+        yield {"t": "Assign", "lhs": "r", "sub": None, "rhs": ["+", "<func>gv", ["*", 2, "x"]], "loops": [], "cond": c}
+        yield {"t": "Call", "assignees": ["x"], "f": "<func>f", "args": ["<func>gv"], "kw": {}, "cond": c}
+        yield {"t": "Assign", "lhs": "a", "sub": ["%", "<builtin>bv", 2], "rhs": 1, "loops": [["i", 0, "<func>gv"]], "cond": c}
     # attribute lookups (a.size, <state>y.real, ...) in every position that has its own traversal
     lk = [[".", "a", "size"], [".", "<state>y", "real"], ["+", [".", "x", "real"], [".", "<state>v", "size"]]]
     for e_, c in itertools.product(lk, CONDS):
